@@ -252,6 +252,17 @@ fn thresholded(t: &Tree, meth: &str, preset: &str, k: usize, iters: u64, thr: f6
     .and_then(|r| r)
 }
 
+/// the same on a thread of its own under a watchdog (a budget of u64::MAX ends only through the threshold)
+#[allow(clippy::type_complexity)]
+fn thresholded_watched(t: &Tree, meth: &str, preset: &str, k: usize, iters: u64, thr: f64, seed: u64, secs: u64) -> Option<Result<(Vec<[f64; 2]>, [Vec<f64>; 2], [f64; 2]), String>> {
+    let (tx, rx) = std::sync::mpsc::channel();
+    let (t2, meth, preset) = (t.clone(), meth.to_string(), preset.to_string());
+    std::thread::spawn(move || {
+        let _ = tx.send(thresholded(&t2, &meth, &preset, k, iters, thr, seed));
+    });
+    rx.recv_timeout(std::time::Duration::from_secs(secs)).ok()
+}
+
 /// thresholds that separate the per-player bounds of the one-thread run: midpoints of consecutive distinct values
 /// of {bound of either player, total bound} over the iterations, kept at a relative distance of 1e-4 from each
 /// (several threads move a bound by rounding only).  These are the values at which a stop decision taken on anything
@@ -293,6 +304,7 @@ pub fn record(args: &Args) {
     let mut nontrivial = 0usize;
     let mut passes_total = 0usize;
     let mut rng = Rng::new(seed ^ 0x6a7);
+    let mut hung = false;
     for (gi, (name, t)) in games.iter().enumerate() {
         // generic payoffs wherever two implementation runs are compared (tie sensitivity)
         let mut tg = t.clone();
@@ -325,6 +337,35 @@ pub fn record(args: &Args) {
                                 Ok(x) => x,
                                 Err(_) => continue,
                             };
+                            // the budget u64::MAX ("no limit") against the same threshold: one thread stops where the bounded
+                            // run stopped; k threads must return the same
+                            if one.0.len() < long as usize && !hung {
+                                for &k in &[1usize, 2] {
+                                    match thresholded_watched(&tg, meth, preset, k, u64::MAX, thr, sd, 120) {
+                                        None => {
+                                            hung = true;
+                                            cmp.line(&json!({"status": "violation", "game": name, "method": meth, "k": k, "T": "u64::MAX", "r": thr,
+                                                "mismatch": [{"class": "unlimited-hang", "what": "no return within 120 s with the unlimited budget although the bounded run crosses the threshold"}], "tree": tg}));
+                                            break;
+                                        }
+                                        Some(Err(msg)) => cmp.line(&json!({"status": "violation", "game": name, "method": meth, "k": k, "T": "u64::MAX", "r": thr,
+                                            "mismatch": [{"class": "panic", "what": "solve with the unlimited budget failed or panicked", "observed": msg}], "tree": tg})),
+                                        Some(Ok((kits, dense, bounds))) => {
+                                            runs += 1;
+                                            let d = max_diff(&dense, &one.1);
+                                            let db = (0..2).map(|p| (bounds[p] - one.2[p]).abs() / one.2[p].abs().max(1.0)).fold(0.0, f64::max);
+                                            if kits.len() != one.0.len() || d > 1e-9 || db > 1e-9 || d.is_nan() || db.is_nan() {
+                                                cmp.line(&json!({"status": "violation", "game": name, "method": meth, "preset": preset, "k": k, "T": "u64::MAX", "r": thr,
+                                                    "mismatch": [{"class": "unlimited-differs", "what": "run with the unlimited budget differs from the bounded run that crosses the threshold",
+                                                        "iterations_bounded": one.0.len(), "iterations_unlimited": kits.len(),
+                                                        "max_probability_difference": d, "max_bound_difference": db}], "tree": tg, "seed": sd}));
+                                            } else {
+                                                cmp.line(&json!({"status": "ok", "game": name, "method": meth, "k": k, "T": "u64::MAX", "r": thr, "nontrivial": true}));
+                                            }
+                                        }
+                                    }
+                                }
+                            }
                             for &k in &[2usize, ks[(gi + mi) % ks.len()].max(3)] {
                                 match thresholded(&tg, meth, preset, k, long, thr, sd) {
                                     Err(msg) => cmp.line(&json!({"status": "violation", "game": name, "method": meth, "k": k, "T": long, "r": thr,
